@@ -9,6 +9,8 @@ that instant completes normally although what it waits for was not available; (d
 
 from __future__ import annotations
 
+from ..collect import guarded
+
 import itertools
 
 from .. import treecheck, treefam
@@ -43,11 +45,11 @@ def shards(tier: str, seed: int) -> list[dict]:
 def run_shard(desc: dict, col) -> None:  # noqa: ANN001
     for i, case in enumerate(all_cases(desc["tier"], desc["seed"])):
         if i % desc["of"] == desc["shard"]:
-            treecheck.judge(PROPERTY, case, col)
+            guarded(col, case, treecheck.judge, PROPERTY, case, col)
 
 
 def replay(case: dict, col) -> None:  # noqa: ANN001
-    treecheck.judge(PROPERTY, case, col)
+    guarded(col, case, treecheck.judge, PROPERTY, case, col)
 
 
 def finish(col, tier: str) -> None:  # noqa: ANN001
